@@ -8,13 +8,13 @@ interpreter `SoftmaxExec.evalStep` does not read it either).  `NStep.ofRow` rebu
 `Props/C01SoftmaxLower.lean` proves that running the rebuilt program is running the original one, so two programs with equal
 rows have equal values on every input.
 
-`streamRows` produces the same rows from a DECODED command stream (`NpuSem.opsWithRegs`: the block operations with the
+`groupsOf` / `segmentRows` produce the same rows from a DECODED command stream (`NpuSem.opsWithRegs`: the block operations with the
 registers each one saw): operation kind from the block type / sub-operation, rounding from OFM_PRECISION, OFM_SCALE multiplier
 and shift, operand zero points in OPA / OPB order, operand widths, OFM zero point, TABLE_LOOKUP index range, ACTIVATION_MIN /
 MAX; the operands are resolved by DATA FLOW: a feature map in the constants region with one element is a constant (its value is
 read from the constants), a scalar register operand is a constant, any other operand is the OFM of the latest earlier block
-operation whose OFM byte range contains the operand's first byte.  Consecutive block operations with the same row (same value
-fields, operands produced by the same passes) are the stripes of one pass and are counted once.
+operation whose OFM byte range contains the operand's first byte.  Block operations with the same row (same value fields, operands
+produced by the same passes) are the stripes of one pass and are counted once.
 -/
 namespace VelaVerif.SoftmaxLower
 open VelaVerif.SoftmaxGraph VelaVerif.SoftmaxExec VelaVerif.Requant VelaVerif.NpuWide VelaVerif.NpuSem VelaVerif.Decode VelaVerif.Isa
@@ -159,7 +159,8 @@ structure Group where
   /-- the operands of the first stripe as the registers give them -/
   aRaw : Option (Sum (Nat × Nat × Nat) Int)
   bRaw : Option (Sum (Nat × Nat × Nat) Int)
-  ofms : List (Nat × Nat × Nat)
+  /-- OFM byte ranges of the block operations of the pass: (region, first byte, end, position of the operation in the stream) -/
+  ofms : List (Nat × Nat × Nat × Nat)
   ifms : List (Nat × Nat × Nat)
   stripes : Nat
 deriving Repr, Inhabited
@@ -168,13 +169,16 @@ def readConst32 (flash : ByteArray) (addr : Nat) : Int :=
   let byte := fun k => (flash.get! (addr + k)).toNat
   if addr + 4 > flash.size then 0 else toSigned (byte 0 + 256 * byte 1 + 65536 * byte 2 + 16777216 * byte 3) 32
 
-/-- the latest group (searching from the newest) one of whose OFM ranges contains byte `addr` of `region` -/
-def producer (groups : Array Group) (region addr : Nat) : Option Nat := Id.run do
-  let mut i := groups.size
-  while i > 0 do
-    i := i - 1
-    if (groups[i]!).ofms.any fun (r, lo, hi) => r = region ∧ lo ≤ addr ∧ addr < hi then return some i
-  return none
+/-- the group of the LATEST block operation (position in the stream) whose OFM range contains byte `addr` of `region` -/
+def producer (groups : Array Group) (region addr : Nat) : Option Nat :=
+  let best : Option (Nat × Nat) := (List.range groups.size).foldl (fun acc i =>
+    (groups[i]!).ofms.foldl (fun acc (r, lo, hi, seq) =>
+      if r = region ∧ lo ≤ addr ∧ addr < hi then
+        (match acc with
+         | some (s, _) => if seq ≥ s then some (seq, i) else acc
+         | none => some (seq, i))
+      else acc) acc) none
+  best.map (·.2)
 
 def resolve (flash : ByteArray) (groups : Array Group) : Option (Sum (Nat × Nat × Nat) Int) → List Int
   | none => [3, 0]
@@ -185,30 +189,31 @@ def resolve (flash : ByteArray) (groups : Array Group) : Option (Sum (Nat × Nat
       | some g => [1, g]
       | none => [4, 0]
 
-/-- block operations of the stream → passes (consecutive operations with equal kind, value fields and resolved operands are
-    stripes of one pass) -/
+/-- block operations of the stream → passes: a block operation is a further stripe of an EARLIER pass (the latest one) that has its
+    kind, its value fields and operands that resolve to the same passes / constants — the stripes of a pass need not be consecutive
+    (the scheduler interleaves the stripes of chained elementwise passes).  An operation that reads the OFM of a pass never joins
+    that pass (the operands of a pass were resolved before the pass existed). -/
 def groupsOf (flash : ByteArray) (ops : List (DecOp × RegFile)) : Array Group := Id.run do
   let mut groups : Array Group := #[]
+  let mut seq := 0
   for (op, regs) in ops do
     match op with
     | .dma _ => pure ()
     | .block b =>
       let raw := rawOfBlock b regs
-      -- resolve against the groups BEFORE the current one when the operation continues the last group
-      let n := groups.size
-      let prev := groups.extract 0 (n - 1)
-      let last := groups.getD (n - 1) default
-      let aP := resolve flash prev raw.a
-      let bP := resolve flash prev raw.b
-      if n > 0 ∧ last.kind = raw.kind ∧ last.tail = raw.tail ∧ last.a = aP ∧ last.b = bP then
-        groups := groups.set! (n - 1) { last with ofms := (raw.ofmRegion, raw.ofmLo, raw.ofmHi) :: last.ofms,
-                                                   ifms := (raw.ifmRegion, raw.ifmLo, raw.ifmHi) :: last.ifms,
-                                                   stripes := last.stripes + 1 }
-      else
-        groups := groups.push { kind := raw.kind, tail := raw.tail, a := resolve flash groups raw.a, b := resolve flash groups raw.b,
-                                aRaw := raw.a, bRaw := raw.b,
-                                ofms := [(raw.ofmRegion, raw.ofmLo, raw.ofmHi)], ifms := [(raw.ifmRegion, raw.ifmLo, raw.ifmHi)],
+      let aP := resolve flash groups raw.a
+      let bP := resolve flash groups raw.b
+      let same := fun (g : Group) => g.kind = raw.kind ∧ g.tail = raw.tail ∧ g.a = aP ∧ g.b = bP
+      match ((List.range groups.size).reverse).find? (fun i => same (groups[i]!)) with
+      | some i =>
+        let g := groups[i]!
+        groups := groups.set! i { g with ofms := (raw.ofmRegion, raw.ofmLo, raw.ofmHi, seq) :: g.ofms,
+                                         ifms := (raw.ifmRegion, raw.ifmLo, raw.ifmHi) :: g.ifms, stripes := g.stripes + 1 }
+      | none =>
+        groups := groups.push { kind := raw.kind, tail := raw.tail, a := aP, b := bP, aRaw := raw.a, bRaw := raw.b,
+                                ofms := [(raw.ofmRegion, raw.ofmLo, raw.ofmHi, seq)], ifms := [(raw.ifmRegion, raw.ifmLo, raw.ifmHi)],
                                 stripes := 1 }
+      seq := seq + 1
   return groups
 
 /-- operand of a pass of the segment that starts at group `start` (pass 0 = the depthwise maximum whose IFM is the SOFTMAX
